@@ -32,7 +32,12 @@ func (d *amDumper) call(prefix, name string, f func() map[string]interface{}) {
 				d.sb.WriteString("panic")
 			}
 		}()
-		d.sb.WriteString(DumpGo(f()))
+		first := DumpGo(f())
+		d.sb.WriteString(first)
+		// ArgumentMap is a function of the node and the variables: a second call gives the same map
+		if again := DumpGo(f()); again != first {
+			d.sb.WriteString("!second-call:" + again)
+		}
 	}()
 	d.sb.WriteString(";")
 }
@@ -95,6 +100,7 @@ func implArgMap(args [][]byte) string {
 	if string(args[0]) == "raw" {
 		d.vars = raw.(map[string]interface{})
 	}
+	before := DumpQueryDoc(doc, true)
 	for _, o := range doc.Operations {
 		d.dirs(o.Directives)
 		for _, vd := range o.VariableDefinitions {
@@ -105,6 +111,9 @@ func implArgMap(args [][]byte) string {
 	for _, f := range doc.Fragments {
 		d.dirs(f.Directives)
 		d.sels(f.SelectionSet)
+	}
+	if DumpQueryDoc(doc, true) != before {
+		d.sb.WriteString("!document-changed-by-ArgumentMap")
 	}
 	return "ok " + d.sb.String()
 }
